@@ -25,24 +25,24 @@ theorem catInsert_pure (k : String) (km : Row N) (row : Val N) (acc : List (CatE
       exact ih
 
 /-- `ToCatalog` computes the catalogue of C04 (first-appearance grouping by key text) -/
-theorem toCatalog_pure (cols : List (List String)) (keyf : Val N → String) (kmf : Val N → Row N)
-    (hk : ∀ row, rowKey cols row = .ok (keyf row, kmf row)) :
+theorem toCatalog_pure (cols : List (List String)) (keyf : Val N → String) (kmf : Val N → Row N) :
     ∀ (rows : List (Val N)) (acc : List (CatEntry N)),
+      (∀ row ∈ rows, rowKey cols row = .ok (keyf row, kmf row)) →
       ∃ out, toCatalog cols rows acc = .ok out ∧ out.map toPair = scanG keq keyf rows (acc.map toPair) := by
   intro rows
   induction rows with
-  | nil => intro acc; exact ⟨acc, rfl, rfl⟩
+  | nil => intro acc _; exact ⟨acc, rfl, rfl⟩
   | cons row rows ih =>
-    intro acc
-    obtain ⟨out, h1, h2⟩ := ih (catInsert (keyf row) (kmf row) row acc)
+    intro acc hk
+    obtain ⟨out, h1, h2⟩ := ih (catInsert (keyf row) (kmf row) row acc) (fun r hr => hk r (by simp [hr]))
     refine ⟨out, ?_, ?_⟩
-    · simp only [toCatalog, hk, bind, Except.bind, h1]
+    · simp only [toCatalog, hk row (by simp), bind, Except.bind, h1]
     · rw [h2, catInsert_pure]; rfl
 
 theorem toCatalog_catalogue (cols : List (List String)) (keyf : Val N → String) (kmf : Val N → Row N)
-    (hk : ∀ row, rowKey cols row = .ok (keyf row, kmf row)) (rows : List (Val N)) :
+    (rows : List (Val N)) (hk : ∀ row ∈ rows, rowKey cols row = .ok (keyf row, kmf row)) :
     ∃ out, toCatalog cols rows [] = .ok out ∧ out.map toPair = catalogue keyf rows := by
-  obtain ⟨out, h1, h2⟩ := toCatalog_pure cols keyf kmf hk rows []
+  obtain ⟨out, h1, h2⟩ := toCatalog_pure cols keyf kmf rows [] hk
   exact ⟨out, h1, h2⟩
 
 theorem catLookup_pure (k : String) (c : List (CatEntry N)) :
@@ -156,5 +156,240 @@ theorem hashPure_inner_eq (rightIdent : String) (kl kr : Val N → String) (ls r
   cases h : lookupCat g.1 (catalogue kr rs) with
   | nil => simp [flatMap_nil_fun]
   | cons a as => simp
+
+/-- for the LEFT case the pure form is literally `hashLeft` of C04 -/
+theorem hashPure_left_eq (rightIdent : String) (kl kr : Val N → String) (ls rs : List (Val N)) :
+    hashPure false rightIdent (catalogue kl ls) (catalogue kr rs) =
+      hashLeft mergeObj (padObj rightIdent) kl kr ls rs := by
+  unfold hashPure hashLeft
+  apply flatMap_congr_mem
+  intro g _
+  simp
+
+/-! ### the nested loop the driver runs -/
+
+/-- the pure nested loop over catalogue entries (inner or left), as the model computes it -/
+def nestedPure (inner : Bool) (rightIdent : String) (onKey : String → String → Bool)
+    (l r : List (String × List (Val N))) : List (Val N) :=
+  l.flatMap fun gl =>
+    let rows := r.flatMap fun gr =>
+      if onKey gl.1 gr.1 then gl.2.flatMap fun a => gr.2.map (mergeObj a) else []
+    if r.any (fun gr => onKey gl.1 gr.1) then rows
+    else if inner then rows else rows ++ gl.2.map (padObj rightIdent)
+
+theorem nestedPair_pure (on : Row N → R Bool) (onKey : String → String → Bool) (le re : CatEntry N)
+    (hon : on (copyInto (copyInto [] le.keyMap) re.keyMap) = .ok (onKey le.key re.key))
+    (hl : AllObj le.rows) (hr : AllObj re.rows) :
+    nestedPair on le re = .ok (if onKey le.key re.key
+      then some (le.rows.flatMap fun a => re.rows.map (mergeObj a)) else none) := by
+  unfold nestedPair
+  simp only [hon, bind, Except.bind]
+  cases onKey le.key re.key
+  · rfl
+  · simp [pairAll_pure le.rows re.rows hl hr, bind, Except.bind, pure, Except.pure]
+
+theorem flatten_getD_blocks {β' : Type} (c : β' → Bool) (f : β' → List (Val N)) (r : List β') :
+    ((r.map fun x => if c x then some (f x) else none).map fun p => p.getD []).flatten =
+      r.flatMap fun x => if c x then f x else [] := by
+  induction r with
+  | nil => rfl
+  | cons x r ih =>
+    simp only [List.map_cons, List.flatten_cons, List.flatMap_cons, ih]
+    cases c x <;> simp
+
+theorem any_isSome_blocks {β' δ : Type} (c : β' → Bool) (f : β' → δ) (r : List β') :
+    (r.map fun x => if c x then some (f x) else none).any Option.isSome = r.any c := by
+  induction r with
+  | nil => rfl
+  | cons x r ih =>
+    simp only [List.map_cons, List.any_cons, ih]
+    cases c x <;> simp
+
+theorem nestedMatch_pure (on : Row N → R Bool) (onKey : String → String → Bool) (inner : Bool)
+    (rightIdent : String) (le : CatEntry N) (r : List (CatEntry N))
+    (hon : ∀ re ∈ r, on (copyInto (copyInto [] le.keyMap) re.keyMap) = .ok (onKey le.key re.key))
+    (hl : AllObj le.rows) (hr : ∀ e ∈ r, AllObj e.rows) :
+    nestedMatch on inner rightIdent le r = .ok (
+      let rows := (r.map toPair).flatMap fun gr =>
+        if onKey le.key gr.1 then le.rows.flatMap fun a => gr.2.map (mergeObj a) else []
+      if (r.map toPair).any (fun gr => onKey le.key gr.1) then rows
+      else if inner then rows else rows ++ le.rows.map (padObj rightIdent)) := by
+  unfold nestedMatch
+  rw [mapE_eq_map_of_ok (g := fun re => if onKey le.key re.key
+      then some (le.rows.flatMap fun a => re.rows.map (mergeObj a)) else none)]
+  · simp only [bind, Except.bind]
+    rw [any_isSome_blocks (fun re : CatEntry N => onKey le.key re.key), flatten_getD_blocks]
+    simp only [List.flatMap_map, List.any_map, Function.comp_def, toPair]
+    cases hm : r.any (fun re => onKey le.key re.key)
+    · cases inner
+      · simp [nullAll_pure le.rows rightIdent hl, bind, Except.bind, pure, Except.pure]; rfl
+      · simp [pure, Except.pure]; rfl
+    · simp [pure, Except.pure]; rfl
+  · intro re hre
+    exact nestedPair_pure on onKey le re (hon re hre) hl (hr re hre)
+
+/-- **the nested loop the driver runs is the pure nested loop over the catalogues** (and therefore,
+    by `nested_inner_perm_textbook` / `nested_left_perm_textbook`, a permutation of the textbook
+    join) — whenever ON, evaluated on the union of two key maps, is a function of the two key texts -/
+theorem nestedRun_pure (on : Row N → R Bool) (onKey : String → String → Bool) (inner : Bool)
+    (rightIdent : String) (l r : List (CatEntry N))
+    (hon : ∀ le ∈ l, ∀ re ∈ r, on (copyInto (copyInto [] le.keyMap) re.keyMap) = .ok (onKey le.key re.key))
+    (hl : ∀ e ∈ l, AllObj e.rows) (hr : ∀ e ∈ r, AllObj e.rows) :
+    nestedRun on inner rightIdent l r = .ok (nestedPure inner rightIdent onKey (l.map toPair) (r.map toPair)) := by
+  unfold nestedRun nestedPure
+  rw [mapE_eq_map_of_ok (g := fun le =>
+      let rows := (r.map toPair).flatMap fun gr =>
+        if onKey le.key gr.1 then le.rows.flatMap fun a => gr.2.map (mergeObj a) else []
+      if (r.map toPair).any (fun gr => onKey le.key gr.1) then rows
+      else if inner then rows else rows ++ le.rows.map (padObj rightIdent))]
+  · simp only [bind, Except.bind, pure, Except.pure, List.flatMap_def, List.map_map, Function.comp_def, toPair]
+    rfl
+  · intro le hle
+    exact nestedMatch_pure on onKey inner rightIdent le r (hon le hle) (hl le hle) hr
+
+theorem nestedPure_inner_eq (rightIdent : String) (onKey : String → String → Bool)
+    (kl kr : Val N → String) (ls rs : List (Val N)) :
+    nestedPure true rightIdent onKey (catalogue kl ls) (catalogue kr rs) =
+      nestedInner mergeObj onKey kl kr ls rs := by
+  unfold nestedPure nestedInner
+  apply flatMap_congr_mem
+  intro g _
+  simp
+
+theorem nestedPure_left_eq (rightIdent : String) (onKey : String → String → Bool)
+    (kl kr : Val N → String) (ls rs : List (Val N)) :
+    nestedPure false rightIdent onKey (catalogue kl ls) (catalogue kr rs) =
+      nestedLeft mergeObj (padObj rightIdent) onKey kl kr ls rs := by
+  unfold nestedPure nestedLeft
+  apply flatMap_congr_mem
+  intro g _
+  simp
+
+/-! ### end to end: catalogues + join loop of the model = textbook join -/
+
+theorem entries_allObj (key : Val N → String) (rows : List (Val N)) (c : List (CatEntry N))
+    (hc : c.map toPair = catalogue key rows) (hrows : AllObj rows) : ∀ e ∈ c, AllObj e.rows := by
+  intro e he a ha
+  have hg : toPair e ∈ catalogue key rows := by rw [← hc]; exact List.mem_map.mpr ⟨e, he, rfl⟩
+  exact hrows a (catalog_member_mem key rows (toPair e) hg a ha)
+
+theorem entries_nonempty (key : Val N → String) (rows : List (Val N)) (c : List (CatEntry N))
+    (hc : c.map toPair = catalogue key rows) : ∀ e ∈ c, e.rows ≠ [] := by
+  intro e he
+  have hg : toPair e ∈ catalogue key rows := by rw [← hc]; exact List.mem_map.mpr ⟨e, he, rfl⟩
+  exact catalog_group_nonempty key rows (toPair e) hg
+
+/-- **hash join, end to end**: for object rows whose key columns can be read, `ToCatalog` on both
+    sides followed by `HashJoinFunc` succeeds and returns a permutation of the textbook inner /
+    LEFT OUTER equi-join on the key texts -/
+theorem hash_join_model_textbook (inner : Bool) (ri : String) (lc rc : List (List String))
+    (kl kr : Val N → String) (kml kmr : Val N → Row N) (ls rs : List (Val N))
+    (hkl : ∀ row ∈ ls, rowKey lc row = .ok (kl row, kml row))
+    (hkr : ∀ row ∈ rs, rowKey rc row = .ok (kr row, kmr row))
+    (hl : AllObj ls) (hr : AllObj rs) :
+    ∃ cl cr out, toCatalog lc ls [] = .ok cl ∧ toCatalog rc rs [] = .ok cr ∧
+      hashJoinRun inner ri cl cr = .ok out ∧
+      out.Perm (if inner then textbookInner mergeObj kl kr ls rs
+                else textbookLeft mergeObj (padObj ri) kl kr ls rs) := by
+  obtain ⟨cl, hcl, hclp⟩ := toCatalog_catalogue lc kl kml ls hkl
+  obtain ⟨cr, hcr, hcrp⟩ := toCatalog_catalogue rc kr kmr rs hkr
+  refine ⟨cl, cr, _, hcl, hcr,
+    hashJoinRun_pure inner ri cl cr (entries_allObj kl ls cl hclp hl) (entries_allObj kr rs cr hcrp hr)
+      (entries_nonempty kr rs cr hcrp), ?_⟩
+  rw [hclp, hcrp]
+  cases inner
+  · simp only [Bool.false_eq_true, if_false]
+    rw [hashPure_left_eq]; exact hash_left_perm_textbook _ _ kl kr ls rs
+  · simp only [if_true]
+    rw [hashPure_inner_eq]; exact hash_inner_perm_textbook _ kl kr ls rs
+
+/-- the key text / key map of every catalogue entry are those of one of the source rows -/
+theorem catInsert_entries (k : String) (km : Row N) (row : Val N) (acc : List (CatEntry N)) :
+    ∀ e ∈ catInsert k km row acc,
+      (e.key = k ∧ e.keyMap = km) ∨ (∃ e' ∈ acc, e.key = e'.key ∧ e.keyMap = e'.keyMap) := by
+  induction acc with
+  | nil =>
+    intro e he
+    simp only [catInsert, List.mem_singleton] at he
+    subst he; exact Or.inl ⟨rfl, rfl⟩
+  | cons e0 es ih =>
+    intro e he
+    simp only [catInsert] at he
+    by_cases h : e0.key = k
+    · simp only [h, if_true, List.mem_cons] at he
+      rcases he with rfl | he
+      · exact Or.inr ⟨e0, by simp, by simp [h], rfl⟩
+      · exact Or.inr ⟨e, by simp [he], rfl, rfl⟩
+    · simp only [h, if_false, List.mem_cons] at he
+      rcases he with rfl | he
+      · exact Or.inr ⟨e, by simp, rfl, rfl⟩
+      · rcases ih e he with h1 | ⟨e', he', h2⟩
+        · exact Or.inl h1
+        · exact Or.inr ⟨e', by simp [he'], h2⟩
+
+theorem toCatalog_entries (cols : List (List String)) (keyf : Val N → String) (kmf : Val N → Row N) :
+    ∀ (rows : List (Val N)) (acc out : List (CatEntry N)),
+      (∀ row ∈ rows, rowKey cols row = .ok (keyf row, kmf row)) →
+      toCatalog cols rows acc = .ok out →
+      ∀ e ∈ out, (∃ row ∈ rows, e.key = keyf row ∧ e.keyMap = kmf row) ∨
+                 (∃ e' ∈ acc, e.key = e'.key ∧ e.keyMap = e'.keyMap) := by
+  intro rows
+  induction rows with
+  | nil =>
+    intro acc out _ h e he
+    simp only [toCatalog] at h
+    cases h
+    exact Or.inr ⟨e, he, rfl, rfl⟩
+  | cons row rows ih =>
+    intro acc out hk h e he
+    simp only [toCatalog, hk row (by simp), bind, Except.bind] at h
+    rcases ih _ out (fun r hr => hk r (by simp [hr])) h e he with ⟨r, hr, h1⟩ | ⟨e', he', h2, h3⟩
+    · exact Or.inl ⟨r, by simp [hr], h1⟩
+    · rcases catInsert_entries _ _ row acc e' he' with ⟨h4, h5⟩ | ⟨e'', he'', h6, h7⟩
+      · exact Or.inl ⟨row, by simp, by rw [h2, h4], by rw [h3, h5]⟩
+      · exact Or.inr ⟨e'', he'', by rw [h2, h6], by rw [h3, h7]⟩
+
+/-- **nested loop, end to end**: the same for `JoinFunc` with an arbitrary ON condition that is a
+    function of the two key texts (ON only mentions the extracted key columns): ON is evaluated
+    once per pair of key groups, on the union of the key maps of two source rows -/
+theorem nested_join_model_textbook (inner : Bool) (ri : String) (lc rc : List (List String))
+    (on : Row N → R Bool) (onKey : String → String → Bool)
+    (kl kr : Val N → String) (kml kmr : Val N → Row N) (ls rs : List (Val N))
+    (hkl : ∀ row ∈ ls, rowKey lc row = .ok (kl row, kml row))
+    (hkr : ∀ row ∈ rs, rowKey rc row = .ok (kr row, kmr row))
+    (hon : ∀ a ∈ ls, ∀ b ∈ rs, on (copyInto (copyInto [] (kml a)) (kmr b)) = .ok (onKey (kl a) (kr b)))
+    (hl : AllObj ls) (hr : AllObj rs) :
+    ∃ cl cr out, toCatalog lc ls [] = .ok cl ∧ toCatalog rc rs [] = .ok cr ∧
+      nestedRun on inner ri cl cr = .ok out ∧
+      out.Perm (if inner then textbookOn mergeObj (fun a b => onKey (kl a) (kr b)) ls rs
+                else textbookLeftOn mergeObj (padObj ri) (fun a b => onKey (kl a) (kr b)) ls rs) := by
+  obtain ⟨cl, hcl, hclp⟩ := toCatalog_catalogue lc kl kml ls hkl
+  obtain ⟨cr, hcr, hcrp⟩ := toCatalog_catalogue rc kr kmr rs hkr
+  have hon' : ∀ le ∈ cl, ∀ re ∈ cr,
+      on (copyInto (copyInto [] le.keyMap) re.keyMap) = .ok (onKey le.key re.key) := by
+    intro le hle re hre
+    rcases toCatalog_entries lc kl kml ls [] cl hkl hcl le hle with ⟨a, ha, h1, h2⟩ | ⟨_, h, _⟩
+    · rcases toCatalog_entries rc kr kmr rs [] cr hkr hcr re hre with ⟨b, hb, h3, h4⟩ | ⟨_, h, _⟩
+      · rw [h1, h2, h3, h4]; exact hon a ha b hb
+      · cases h
+    · cases h
+  refine ⟨cl, cr, _, hcl, hcr,
+    nestedRun_pure on onKey inner ri cl cr hon'
+      (entries_allObj kl ls cl hclp hl) (entries_allObj kr rs cr hcrp hr), ?_⟩
+  rw [hclp, hcrp]
+  cases inner
+  · simp only [Bool.false_eq_true, if_false]
+    rw [nestedPure_left_eq]
+    exact nested_left_perm_textbook _ _ _ onKey kl kr (fun _ _ => rfl) ls rs
+  · simp only [if_true]
+    rw [nestedPure_inner_eq]
+    exact nested_inner_perm_textbook _ _ onKey kl kr (fun _ _ => rfl) ls rs
+
+/-! ### non-vacuity -/
+
+example : nestedLeft (fun (a : Nat × Nat) (b : Nat × Nat) => (a, some b)) (fun a => (a, none)) (fun k k' => decide (k < k'))
+      (·.1) (·.1) [(1, 10), (5, 50), (1, 11)] [(2, 7), (3, 9)]
+    = [((1, 10), some (2, 7)), ((1, 11), some (2, 7)), ((1, 10), some (3, 9)), ((1, 11), some (3, 9)), ((5, 50), none)] := by
+  decide
 
 end Genql.C04
